@@ -60,7 +60,7 @@ def _curve_shapes(tier):
         for nd in range(0, kmax + 1):                      # nd = number of distinct interior knots
             for mult in _patterns(nd, p):
                 out.append(dict(p=p, mult=list(mult), d=1, rational=False))
-                if (p <= 2 and tier == 'quick' and nd <= 1) or (p <= 3 and tier == 'thorough' and nd <= 2):
+                if (p <= 2 and tier == 'quick') or (p <= 3 and tier == 'thorough' and nd <= 2):
                     out.append(dict(p=p, mult=list(mult), d=2, rational=False))
     out.append(dict(p=2, mult=[1], d=1, rational=True))
     out.append(dict(p=1, mult=[1], d=2, rational=True))
@@ -206,7 +206,10 @@ def _surf_shapes(tier):
             dict(pu=2, pv=1, mu=[1], mv=[], dens=[0, 1], rational=False),
             dict(pu=1, pv=2, mu=[], mv=[1], dens=[1, 1], rational=False),
             dict(pu=2, pv=2, mu=[], mv=[], dens=[2, 1], rational=False),
-            dict(pu=1, pv=1, mu=[], mv=[], dens=[1, 1], rational=True)]
+            dict(pu=2, pv=2, mu=[1], mv=[1], dens=[1, 1], rational=False),
+            dict(pu=3, pv=2, mu=[2], mv=[], dens=[1, 1], rational=False),
+            dict(pu=1, pv=1, mu=[], mv=[], dens=[1, 1], rational=True),
+            dict(pu=2, pv=1, mu=[], mv=[], dens=[1, 0], rational=True)]
     if tier == 'thorough':
         base += [dict(pu=3, pv=2, mu=[1], mv=[1], dens=[1, 1], rational=False),
                  dict(pu=2, pv=2, mu=[2], mv=[1], dens=[1, 2], rational=False),
@@ -249,9 +252,10 @@ def _vol_shapes(tier):
     base = [dict(deg=[1, 1, 1], m=[[], [], []], dens=[1, 0, 0]),
             dict(deg=[1, 1, 1], m=[[], [], []], dens=[0, 1, 0]),
             dict(deg=[1, 1, 1], m=[[], [], []], dens=[0, 0, 1]),
-            dict(deg=[2, 1, 1], m=[[], [], []], dens=[1, 1, 0])]
+            dict(deg=[2, 1, 1], m=[[], [], []], dens=[1, 1, 0]),
+            dict(deg=[2, 1, 1], m=[[1], [], []], dens=[1, 0, 1])]
     if tier == 'thorough':
-        base += [dict(deg=[2, 1, 1], m=[[1], [], []], dens=[1, 0, 1]),
+        base += [dict(deg=[2, 2, 1], m=[[1], [1], []], dens=[1, 2, 0]),
                  dict(deg=[1, 2, 1], m=[[], [1], []], dens=[1, 1, 1]),
                  dict(deg=[1, 1, 2], m=[[], [], []], dens=[0, 1, 2])]
     return base
